@@ -123,6 +123,9 @@ func materialise(c N, dir string) (string, string) {
 				text = raw
 			} else {
 				text = renderFile(list(fn["imports"]), respell(list(fn["body"]), str(c["spell"])))
+				if c["spell"] == "airy" {
+					text = airy(text)
+				}
 			}
 			// a file may ask for a content hash (the parser's name prefix for imported files) that starts with a digit or a letter
 			if hc, ok := fn["hash"].(string); ok {
@@ -150,6 +153,9 @@ func materialise(c N, dir string) (string, string) {
 		return filepath.Join(dir, mainPath), mainSrc
 	}
 	src := renderFile(list(prog["imports"]), respell(list(prog["body"]), str(c["spell"])))
+	if c["spell"] == "airy" {
+		src = airy(src)
+	}
 	mainFile := filepath.Join(dir, "main.tsh")
 	os.WriteFile(mainFile, []byte(src), 0o644)
 	return mainFile, src
